@@ -985,10 +985,16 @@ def _s_add(m, o, args, kw, node):
         if x not in o.s:
             o.s.append(x)
         return
-    if isinstance(x, Sym) and o.s:
-        if _s_find(m, o, x, node) is None:
-            raise Unsupported("symbolic element (distinct from all members) added to a concrete set", node)
-        return
+    if isinstance(x, Sym) and x.k in ("int", "str") and all(m.kind_of(y) in ("int", "str") for y in o.s):
+        # continue as a set with symbolic members
+        zs = [m.z(y) for y in o.s]
+        n0 = len(o.s)
+        o.__class__ = SymSet
+        o.__dict__.pop("s", None)
+        o.ktype = S.Str if x.k == "str" else S.Int
+        o.has = (lambda k, zs=zs: z3.Or(*[k == y for y in zs])) if zs else (lambda k: z3.BoolVal(False))
+        o.card = z3.IntVal(n0)
+        return _ss_add(m, o, [x], kw, node)
     raise Unsupported("symbolic element added to a concrete set (declare the field as SetT)", node)
 
 
